@@ -397,8 +397,7 @@ def main():
         return res.finish("proof", {"obligations": 1, "discharged": 0, "checker_cmd": "lake build", "trusted_base": [],
                                     "explanation": "harness/extractor build failed"}, [])
     drv_ok, drv_out = lake_build(["algobra_model"])
-    if pid == "C04":
-        regen_certs_if_db_changed()
+    regen_certs_if_db_changed()     # C01–C04 import the certificates; a sha comparison when nothing changed
     pinfo = proof_side(pid, res, tier)
     import props
     extra = props.EXTRA.get(pid)
